@@ -501,7 +501,7 @@ fn relative_to_numeric<F: vcheck::Fl>(s: &mut Sink) {
 }
 
 fn run_everything(tier: Tier, s: &mut Sink) -> (u64, u64) {
-    let depth = tier.pick(3, 3);
+    let depth = tier.pick(3, 5);
     let mut st = (0, 0);
     let add = |a: (u64, u64), b: (u64, u64)| (a.0 + b.0, a.1 + b.1);
     st = add(st, run_dom(&dom_i32(), depth, s));
@@ -559,7 +559,7 @@ fn main() {
     s.sample(json!({"dom":"f64","a":"TwoSided(-1.5, 3.0)","act":{"MulK":0},"expect":"scalar -3: [-9, 4.5], well-formed"}));
     s.sample(json!({"dom":"i32","a":"LowerOneSided(-4)","act":{"RevSubIv":50},"expect":"seed - (<-,-4]: unbounded above"}));
     s.sample(json!({"check":"relative_to","self":"TwoSided(1.0, 4.0)","reference":"UpperOneSided(2.0)","expect":"(<-, 1.0]"}));
-    rep.rule = format!("BFS to depth {} from all 63 (i32) / 42 (f64) / 35 (i64) / 25 (f32) seed intervals of the three kinds; actions: +k,-k,*k,/k (k of both signs and 0; /0 excluded), unary -, A+B, A-B, B+A, B-A for every seed B; results inside the box re-enter the search; each transition judged on member images (all integer members / grid+step members, 4 members of an unbounded side incl. a far one); relative_to over all non-negative x strictly-positive Two/Upper pairs of a dyadic grid; distinct by (operation, operand kinds, scalar sign, result kind)", tier.pick(2, 3));
+    rep.rule = format!("BFS to depth {} from all 63 (i32) / 42 (f64) / 35 (i64) / 25 (f32) seed intervals of the three kinds; actions: +k,-k,*k,/k (k of both signs and 0; /0 excluded), unary -, A+B, A-B, B+A, B-A for every seed B; results inside the box re-enter the search; each transition judged on member images (all integer members / grid+step members, 4 members of an unbounded side incl. a far one); relative_to over all non-negative x strictly-positive Two/Upper pairs of a dyadic grid; distinct by (operation, operand kinds, scalar sign, result kind)", tier.pick(3, 5));
     rep.assume("members of an interval are checked on a finite window (all integers in range for the integer boxes; bounds, step points and grid points for floats; four points of an unbounded side)");
     rep.assume("the arithmetic is not parametric: the box is a genuine bound (DESIGN §5)");
     rep.require(s.distinct() >= 30, "fewer than 30 distinct (operation, kinds, result) classes: vacuous");
